@@ -756,7 +756,8 @@ class OnePassSignatureV3(OnePassSignature):
         self.signer = packet[:8]
         del packet[:8]
 
-        self.nested = (packet[0] == 1)
+        # RFC 4880 5.4: zero means that another one-pass packet follows; every other value marks the last one
+        self.nested = (packet[0] != 0)
         del packet[0]
 
 
